@@ -75,6 +75,13 @@ func main() {
 				normNotes = append(normNotes, "normalisation of new private helpers failed, the tree is analysed as it is: "+nerr.Error())
 			default:
 				overlay = res.Overlay
+				if d := os.Getenv("LEMOLINT_DUMP_NORMALIZED"); d != "" {
+					for name, b := range overlay {
+						rel, _ := filepath.Rel(absRepo, name)
+						os.MkdirAll(filepath.Join(d, filepath.Dir(rel)), 0o755)
+						os.WriteFile(filepath.Join(d, rel), b, 0o644)
+					}
+				}
 				if len(res.Inlined) > 0 {
 					normNotes = append(normNotes, "new private helpers inlined into their callers before the analysis: "+strings.Join(res.Inlined, ", "))
 				}
